@@ -42,6 +42,7 @@ func launcherCond(pkg *packages.Package, cond ast.Expr, branch bool) []flow.Tag 
 
 func checkC04(r *core.Run) {
 	r.Explain = "Decided statically on every CFG path: (C04.decision) the boolean handed to the second phase is the conjunction of 'no panic' and 'no business error', commit and rollback requests sit on mutually exclusive branches of it and both only under the Launcher role guard (in commitOrRollback and again in GlobalTransactionManager.Commit/Rollback); (C04.panic) a recovered panic reaches the returned error or is re-raised; (C04.surface) the deferred closure never replaces a failure by nil, the second-phase error reaches the result, errors.Wrap is never applied to a possibly-nil error, type assertions on the reply are dominated by a successful request, Commit/Rollback return nil only after a request succeeded; (C04.retry) retry loops test Backoff.Ongoing, break only on success, wait on every continuing path, and the backoff's Err() is non-nil exactly when Ongoing() is false (formula agreement); (C04.begin) a failed begin returns before the second phase is installed. NOT decided: number of attempts for a given fault sequence, timing, MaxRetries==0 meaning 'forever'."
+	r.Explain += " Round 8: (C04.decision, also) the second phase is skipped only when the context is in no global transaction: the guard in front of commit/rollback is IsGlobalTx(ctx) alone, not a role or joined flag."
 	r.Trusted = []string{"go/types, go/cfg", "github.com/pkg/errors.Wrap returns nil for a nil error", "recover() semantics"}
 	w := r.W
 	with := r.Anchor("C04.anchor", w.Func("pkg/tm", "", "WithGlobalTx"), "tm.WithGlobalTx")
@@ -240,6 +241,29 @@ func checkC04(r *core.Run) {
 				flagIdx = i
 			}
 		}
+	}
+	// the second phase runs whenever the scope holds a transaction when the business is over: the tests on the way
+	// to the call ask tm.IsGlobalTx of the scope's context and nothing else (a scope "only joined", a mode, a flag
+	// taken before begin: a RequiresNew scope entered with a transaction launches one of its own)
+	{
+		guard := ""
+		for _, anc := range enclosing(u.body, p2call) {
+			ifs, isIf := anc.(*ast.IfStmt)
+			if !isIf || p2call.Pos() < ifs.Body.Pos() || p2call.End() > ifs.Body.End() {
+				continue
+			}
+			// the if whose Init or Cond contains the call itself is not a guard of it
+			if ifs.Cond.Pos() <= p2call.Pos() && p2call.End() <= ifs.Cond.End() {
+				continue
+			}
+			c, isCall := ast.Unparen(ifs.Cond).(*ast.CallExpr)
+			if !isCall || !core.IsPkgFunc(core.Callee(uinfo, c), pTM, "IsGlobalTx") {
+				guard = core.ExprString(ifs.Cond)
+			}
+		}
+		r.Sites++
+		r.Check(guard == "", "C04.decision", keyW+" : the second phase depends on holding a transaction only", w.Pos(p2call.Pos()), "guarded by tm.IsGlobalTx(ctx) alone",
+			"the second phase is under '"+guard+"': a scope that launched a transaction of its own while it was entered with one (RequiresNew nested in a transaction, or on a callee's context) never commits or rolls it back — the transaction hangs until the coordinator times it out")
 	}
 	if u.recObj == nil || flagIdx < 0 || flagIdx >= len(p2call.Args) {
 		r.Bad("C04.decision", keyW+" : second-phase flag", w.Pos(p2call.Pos()), "cannot find the recover() value or the boolean decision argument of the second-phase call")
